@@ -16,7 +16,19 @@ structure St where
   hnd  : List Nat          -- handle i uses buffer `hnd[i]`
 deriving Repr, BEq
 
+/-- buffer-level updates performed by the other mutators of `VectorT` (each of them detaches first) -/
+inductive Upd where
+  | clear                          -- clear()
+  | fill (v : Int) (n : Nat)       -- fill(value, size): resize when size > 0, then overwrite every cell
+  | insert (i : Nat) (v : Int)     -- insert(i, value), i ≤ size
+  | remove (i : Nat)               -- remove(i), i < size
+  | pushFront (v : Int)            -- push_front
+  | front (v : Int) | back (v : Int)   -- front() = v / back() = v on a non-empty vector
+  | append (w : Buf)               -- operator<<(VectorT) / insert(end, first, last)
+deriving Repr
+
 inductive Op where
+  | upd    (h : Nat) (u : Upd)       -- any of the above on handle h
   | new    (v : Buf)                 -- VectorT(vec): a new handle on a new buffer
   | copy   (h : Nat)                 -- VectorT(const VectorT&): a new handle sharing h's buffer
   | assign (h g : Nat)               -- h = g : h shares g's buffer
@@ -45,8 +57,19 @@ def setBuf (s : St) (h : Nat) (f : Buf → Buf) : St :=
 
 def resizeBuf (n : Nat) (b : Buf) : Buf := b.take n ++ List.replicate (n - b.length) 0
 
+def applyUpd : Upd → Buf → Buf
+  | .clear, _ => []
+  | .fill v n, b => List.replicate (if n > 0 then n else b.length) v
+  | .insert i v, b => if i ≤ b.length then b.take i ++ v :: b.drop i else b
+  | .remove i, b => if i < b.length then b.eraseIdx i else b
+  | .pushFront v, b => v :: b
+  | .front v, b => if b.isEmpty then b else b.set 0 v
+  | .back v, b => if b.isEmpty then b else b.set (b.length - 1) v
+  | .append w, b => b ++ w
+
 /-- one operation; operations on handles that do not exist are ignored -/
 def step (s : St) : Op → St
+  | .upd h u => if h < s.hnd.length then setBuf s h (applyUpd u) else s
   | .new v => { heap := s.heap ++ [v], hnd := s.hnd ++ [s.heap.length] }
   | .copy h => if h < s.hnd.length then { s with hnd := s.hnd ++ [s.hnd.getD h 0] } else s
   | .assign h g => if h < s.hnd.length ∧ g < s.hnd.length then { s with hnd := s.hnd.set h (s.hnd.getD g 0) } else s
@@ -64,6 +87,7 @@ def abs (s : St) : List Buf := (List.range s.hnd.length).map (bufOf s)
 
 /-! ### specification: plain values -/
 def stepSpec (vals : List Buf) : Op → List Buf
+  | .upd h u => if h < vals.length then vals.set h (applyUpd u (vals.getD h [])) else vals
   | .new v => vals ++ [v]
   | .copy h => if h < vals.length then vals ++ [vals.getD h []] else vals
   | .assign h g => if h < vals.length ∧ g < vals.length then vals.set h (vals.getD g []) else vals
